@@ -21,6 +21,7 @@ def parseItem (s : String) : Option Item :=
   | ["retry", p] => p.toNat?.map (fun p => .ev (.retry p))
   | ["giveUp", p] => p.toNat?.map (fun p => .ev (.giveUp p))
   | ["rel", p] => p.toNat?.map (fun p => .ev (.rel p))
+  | ["die", p] => p.toNat?.map (fun p => .ev (.die p))
   | ["fin", p, o] => p.toNat?.map (fun p => .fin p (o = "ok"))
   | ["PROBLEM"] => some .problem
   | ["begin", p] => p.toNat?.map (fun p => .begin p)
@@ -48,7 +49,8 @@ def replay (due : Ver → Bool) : St → List Item → Nat → Except String St
     | some s' => replay due s' r (i + 1)
     | none => .error s!"stuck@{i}"
   | s, .fin p ok :: r, i =>
-    if s.pc p = .done ok then replay due s r (i + 1) else .error s!"fin-mismatch@{i}"
+    -- (a request whose Lock was refused has left the scene while waiting: `dead`, a failure)
+    if s.pc p = .done ok ∨ (s.pc p = .dead ∧ ok = false) then replay due s r (i + 1) else .error s!"fin-mismatch@{i}"
   | _, .problem :: _, i => .error s!"untranslatable@{i}"
   | s, .begin _ :: r, i => replay due s r (i + 1)
   | _, .torn _ :: _, _ => .error "*"
@@ -70,6 +72,9 @@ def specTrace : List Item → Option Nat → Bool → List Nat → List Nat → 
     -- its read of the three-key bundle overlapped another request's save: in flight, whatever
     -- the order of the linearisation points chosen for the two
     specTrace r inIssue fresh active (p :: exempt)
+  | .ev (.die p) :: r, inIssue, fresh, active, exempt =>
+    -- its own Lock call was refused by the storage (injected outage): its failure is the storage's
+    specTrace r inIssue fresh (active.erase p) (p :: exempt)
   | .ev (.issueBegin p) :: r, inIssue, fresh, active, exempt =>
     if inIssue.isSome then "bad:overlapping-issuance"
     else if fresh then "bad:issuance-after-fresh-save"
@@ -173,7 +178,7 @@ def handle (args impl : List String) : String :=
         let st := match s.stored with | some v => s!"s{v}" | none => "s-"
         let obs := (List.range ks.length).map (fun i =>
           let p := i + 1
-          let d := match s.pc p with | .done true => "d1" | .done false => "d0" | _ => "d?"
+          let d := match s.pc p with | .done true => "d1" | .done false => "d0" | .dead => "d0" | _ => "d?"
           d ++ (if s.contacted p then "c1" else "c0"))
         st ++ " " ++ String.intercalate "," obs
     let spec := if impl.isEmpty then "-" else specTrace items none (initial = "fresh") [] []
